@@ -600,7 +600,9 @@ def _b(V, L, cid):
 @builder('dcm.rotation')
 def _b(V, L, cid):
     f = _fn(L, cid)
-    return [C(f'{ax} {"deg" if d else "rad"}', lambda: {}, lambda a, ax=ax, d=d: f(ax, 40.0 if d else 0.7, degrees=d)) for ax in ('x', 'y', 2) for d in (False, True)]
+    return ([C(f'{ax} {"deg" if d else "rad"}', lambda: {}, lambda a, ax=ax, d=d: f(ax, 40.0 if d else 0.7, degrees=d)) for ax in ('x', 'y', 2) for d in (False, True)]
+            + [C('x, angle exactly zero', lambda: {}, lambda a: f('x', 0.0)), C('y, whole turn in degrees', lambda: {}, lambda a: f('y', 360.0, degrees=True)),
+               C('z, angle pi', lambda: {}, lambda a: f('z', math.pi)), C('axis omitted', lambda: {}, lambda a: f(ang=0.7))])
 
 
 @builder('dcm.rot_seq')
@@ -609,6 +611,7 @@ def _b(V, L, cid):
     return [C('zyx rad', lambda: {'angles': V.ang}, lambda a: f('zyx', a['angles']), tags=('rad',)),
             C('zyx deg', lambda: {'angles': V.angd}, lambda a: f('zyx', a['angles'], degrees=True), tags=('deg',)),
             C('axes=list deg', lambda: {'angles': V.angd, 'axes': ['x', 'y', 'x']}, lambda a: f(a['axes'], a['angles'], degrees=True), tags=('deg',)),
+            C('zyx with a zero angle in the middle', lambda: {'angles': np.array([0.4, 0.0, 1.1])}, lambda a: f('zyx', a['angles']), tags=('rad',)),
             C('angles=None (global RNG)', lambda: {}, lambda a: f('zyx'), rng='np')]
 
 
@@ -622,7 +625,8 @@ def _b(V, L, cid):
             C('rpy=', lambda: {'rpy': V.angd}, lambda a: D(rpy=a['rpy']), tags=('optional-array',)),
             C('euler=(seq, angles)', lambda: {'angs': V.ang}, lambda a: D(euler=('zxz', a['angs'])), tags=('optional-array',)),
             C('axang=(nonunit axis, angle)', lambda: {'ax': V.axisn}, lambda a: D(axang=(a['ax'], 0.7)), tags=('optional-array', 'nonunit')),
-            C('x=,y=,z=', lambda: {}, lambda a: D(x=0.1, y=-0.2, z=0.3))]
+            C('x=,y=,z=', lambda: {}, lambda a: D(x=0.1, y=-0.2, z=0.3)),
+            C('x=0, y=, z=0 (exact zeros)', lambda: {}, lambda a: D(x=0.0, y=0.35, z=0.0))]
 
 
 @builder('DCM.from_axang', 'DCM.from_axisangle')
@@ -1421,6 +1425,31 @@ def history(ctx, L, cid, entry, case, cont, k, scale=1.0):
         if n_call == 1:
             first = (fr, out)
             live1 = out[1] if out[0] == 'ok' else None          # the first result, kept alive by the caller while it goes on calling
+            if out[0] == 'ok' and cont == 'nd' and not exempt and not case.get('random'):
+                # exception safety: between the first and the second call the SAME objects serve calls with one argument spoiled
+                # (wrong shape, NaN, zeros, out-of-range or non-numeric scalar); whether such a call is refused or answered,
+                # the following valid calls must answer like the first one (the existing repetition check below)
+                for nm_ in list(Aobj):
+                    if nm_ == 'self':
+                        continue
+                    v_ = Aobj[nm_]
+                    if isinstance(v_, np.ndarray) and v_.ndim >= 1 and v_.dtype.kind == 'f':
+                        spoils = [v_[..., :-1].copy() if v_.shape[-1] > 1 else None, np.full_like(v_, np.nan), np.zeros_like(v_), v_[None].copy(), 'abc']
+                    elif isinstance(v_, float):
+                        spoils = [float('nan'), 1e9, -1e9, 'abc', None, np.float32(v_)]
+                    else:
+                        continue
+                    for sp_ in spoils:
+                        if sp_ is None and not isinstance(v_, float):
+                            continue
+                        B_ = dict(Aobj); B_[nm_] = sp_
+                        r_ = _invoke(case['call'], B_)
+                        ctx.outcome(('spoiled-call', r_[0]))
+                        ctx.transitions += 1
+                for n in judged:                                 # (a spoiled call must not have modified the caller's other arguments either)
+                    if freeze(Aobj[n]) != before[n] and n not in flagged:
+                        flagged.add(n)
+                        ctx.fail(f'{cid} modifies its argument {n}', f'{key0} during a refused / spoiled call', render(Aobj[n]), before_r[n], 0)
         elif live1 is not None and not exempt and not result_flagged:
             # a result handed to the caller is the caller's: later calls neither change it nor return memory shared with it
             ctx.evals += 1
@@ -1437,6 +1466,20 @@ def history(ctx, L, cid, entry, case, cont, k, scale=1.0):
                 result_flagged = True
                 ctx.fail(f'{cid}: a returned result is unchanged by later calls and shares no memory with later results', f'{key0} call={n_call}',
                          render(live1), render(first[1][1]), 0)
+        if n_call == 2 and live1 is not None and cont == 'nd' and not exempt and not case.get('random') and not result_flagged and isinstance(live1, np.ndarray) \
+                and live1.dtype.kind == 'f' and live1.size and live1.flags.writeable:
+            # the caller now EDITS the first result in place (its own array): the third call must still answer like the first
+            own = True
+            for v_ in Aobj.values():
+                arrs_ = [v_] if isinstance(v_, np.ndarray) else [x_ for x_ in getattr(v_, '__dict__', {}).values() if isinstance(x_, np.ndarray)]
+                if any(a_.size and np.shares_memory(a_, live1) for a_ in arrs_):
+                    own = False
+            if own:
+                try:
+                    np.asarray(live1)[...] = -7.25
+                    live1 = None                                  # (no longer comparable with its frozen value)
+                except Exception:
+                    pass
         if n_call == 1:
             pass
         elif not case.get('random') and not exempt:
@@ -1591,6 +1634,35 @@ def job_callables(ctx, ids, k, scale=1.0):
                 r1 = _invoke(case['call'], case['make']())
                 _seed_call(L, other.get('rng'), k)
                 _invoke(other['call'], other['make']())
+                # ... then calls with the OTHER profile's arguments, one of them spoiled at a time (refused or not), then the other profile valid:
+                # it must answer what it answers in a pristine process (a refused call may not leave anything behind for the retry)
+                oi = cases.index(other)
+                if (cid, oi) in baseline:
+                    Bo = other['make']()
+                    for nm_ in list(Bo):
+                        v_ = Bo[nm_]
+                        if nm_ == 'self':
+                            continue
+                        if type(v_) is np.ndarray and v_.ndim >= 1 and v_.dtype.kind == 'f':
+                            spoils = [np.full_like(v_, np.nan), v_[None].copy(), 'abc'] + ([v_[..., :-1].copy()] if v_.shape[-1] > 1 else [])
+                        elif isinstance(v_, float):
+                            spoils = [float('nan'), 'abc', np.float32(v_), 1e9]
+                        else:
+                            continue
+                        for sp_ in spoils:
+                            B_ = dict(Bo); B_[nm_] = sp_
+                            _seed_call(L, other.get('rng'), k)
+                            _invoke(other['call'], B_)
+                            ctx.transitions += 1
+                    _seed_history(L, k)
+                    _seed_call(L, other.get('rng'), k)
+                    ro = _invoke(other['call'], other['make']())
+                    fo = (ro[0], freeze(ro[1])) if ro[0] == 'ok' else ro
+                    ctx.evals += 1
+                    if fo != baseline[(cid, oi)]:
+                        ctx.fail(f'{cid} answers a valid call as in a pristine process after refused / spoiled calls with the same arguments', f'profile={other["profile"]} k={k}',
+                                 render(ro[1]) if ro[0] == 'ok' else list(ro), 'the answer given in a fresh process', 0)
+                _seed_history(L, k)
                 _seed_call(L, rng, k)
                 r3 = _invoke(case['call'], case['make']())
                 ctx.transitions += 3
